@@ -35,9 +35,15 @@ CLAIMED = {
          "All strings up to length 4 (thorough 5) over an adversarial alphabet go through the real _create_fdf as values and as names and are decoded back by TLC; every solved explored return (a third with adversarial text) goes through the real fill_pdfs with a recording stand-in for pdftk and Fill.tla requires: exactly the forms needing filing, once each, ordered by jurisdiction/sequence, no worksheet or input-only form, every FDF value equal to the mapped text, and an error instead of an over-long or out-of-list value.", "6/C19"),
  "C14": ("exploration", "TLC evaluates RoundTrip.tla on every value sent through solution() -> ConfigParser file -> the real fill-pdfs loading path (stand-in pdftk)",
          "Every stored line of every explored real solution (complete or partial) and of a synthetic form covering all line types, decimal places, magnitudes, text shapes and enumeration members is written like the solve command does, read back by the real fill-pdfs code with the stamped year's form definitions, and compared by TLC: numbers/booleans exactly (binary-exact floats), enumerations by member, blank as blank, text up to surrounding whitespace; stamped year = solved year = interpreting year.", "6/C14"),
+ "C11": ("exploration", "TLC classifies every input text with Lex.tla (must / may / reject + denotation) and evaluates InputGate.tla on the outcome of the real InputStore and prompt path",
+         "Per input type all texts up to length 3 (thorough 4) over an adversarial alphabet, hand-picked corner cases and seeded longer texts are pushed through the real InputStore by set(), by file and through prompt_input (+ the solver's assertion); TLC requires reject => reported invalid, must => value of the declared type equal to the denotation, may => consistent and finite; supplied never missing, not supplied always missing.", "6/C11"),
+ "C12": ("exploration", "TLC evaluates FieldType.tla (StoreResult, rounding, blank convention, mirroring) on real TypedField.value() outcomes and on every value stored by explored returns",
+         "Every (line type, decimal places) x every kind of Python value a definition may return goes through the real TypedField.value(); expected TypeError naming the line / empty value / rounded value per the specification; all values stored by explored real returns are checked for exact declared type and rounding; input-only forms' input-to-line type mirroring is checked exhaustively. Readers seeing the rounded stored value is enforced by SolverTrace.tla on every validated trace.", "6/C12"),
 }
 
 NOTES = {
+ "C11": "the Lex.tla grammar is my statement of what each type documents; correct rounding of binary floats not decided (cent precision for plain decimals); '%' outside the alphabet",
+ "C12": "explored returns are seeded samples; rounding judged on the repr of stored doubles",
  "C14": "text containing '%' is not generated (configparser interpolation makes the program abort, which is an error exit, not a wrong value); explored solutions are seeded samples",
  "C19": "pdftk itself is absent: verified is everything up to the bytes and argv handed to it; box lengths / choice lists are the mapping's own (compared with the templates by C18); printable ASCII",
  "C20": "real sessions are in-process calls of habutax.solve() with builtins.input replaced; file contents compared up to surrounding whitespace; quick tier samples every 9th prompt index on real returns",
